@@ -162,6 +162,8 @@ def _exec_unit(args):
                 try:
                     from pyvc.sigma import ring_proves
                     ring = ring_proves(ob.goal, list(ob.hyps) + list(axioms))
+                    if not ring and getattr(c, "ring_focus", None):
+                        ring = ring_proves(ob.goal, list(ob.hyps) + list(axioms), focus=c.ring_focus)
                 except Exception:
                     ring = False
             if ring:
